@@ -115,15 +115,21 @@ def r04_1(ctx):
 def r04_2(ctx):
     out = Outcome("R04.2", "IntegrateJordan.* sum the same-named IntegratePlanar integral over every segment with the "
                            "same arguments; IntegratePlanar.area = vertical(curve, 1, 0, nnodes)", floor=5)
-    for name, extra in (("vertical", (3, 2, 9)), ("polynomial", (0, 0, 9)), ("lenght", (9,)), ("area", (9,))):
-        fn = ctx.fn(f"jordancurve.IntegrateJordan.{name}")
+    from rules.C14 import Vec
+    WORLDS = [
         # straight and curved pieces mixed: every one of them must go through the same per-segment integral
-        from rules.C14 import Vec
-        segs = [Obj("s0", degree=1, npts=2, ctrlpoints=(Vec(0, 0), Vec(4, 1))),
-                Obj("s1", degree=2, npts=3, ctrlpoints=(Vec(4, 1), Vec(5, 5), Vec(2, 6))),
-                Obj("s2", degree=1, npts=2, ctrlpoints=(Vec(2, 6), Vec(0, 0)))]
+        ("mixed", [Obj("s0", degree=1, npts=2, ctrlpoints=(Vec(0, 0), Vec(4, 1))),
+                   Obj("s1", degree=2, npts=3, ctrlpoints=(Vec(4, 1), Vec(5, 5), Vec(2, 6))),
+                   Obj("s2", degree=1, npts=2, ctrlpoints=(Vec(2, 6), Vec(0, 0)))], {"s0": Fr(2), "s1": Fr(3), "s2": Fr(5)}),
+        # closed curves of two curved pieces (a lens) and of one cubic (a teardrop) enclose area as well
+        ("lens", [Obj("s0", degree=2, npts=3, ctrlpoints=(Vec(0, 0), Vec(2, -3), Vec(4, 0))),
+                  Obj("s1", degree=2, npts=3, ctrlpoints=(Vec(4, 0), Vec(2, 3), Vec(0, 0)))], {"s0": Fr(7), "s1": Fr(3)}),
+        ("teardrop", [Obj("s0", degree=3, npts=4, ctrlpoints=(Vec(0, 0), Vec(5, 4), Vec(-5, 4), Vec(0, 0)))], {"s0": Fr(10)}),
+    ]
+    for (name, extra), (wname, segs, vals) in [(a, b) for a in (("vertical", (3, 2, 9)), ("polynomial", (0, 0, 9)), ("lenght", (9,)),
+                                                                  ("area", (9,))) for b in WORLDS]:
+        fn = ctx.fn(f"jordancurve.IntegrateJordan.{name}")
         J = Obj("J", segments=tuple(segs))
-        vals = {"s0": Fr(2), "s1": Fr(3), "s2": Fr(5)}
         calls = []
 
         def hook(rn, ev, call, cname, recv, args, kwargs):
@@ -142,11 +148,11 @@ def r04_2(ctx):
         got_calls = sorted(((c[0], c[1]._name) + tuple(c[2:]) for c in calls), key=str)
         if got_calls != want_calls:
             out.bad(fn.qname, f"does not sum IntegratePlanar.{name} over every segment with the same arguments",
-                    where=fn.where(), detail=f"calls {got_calls}")
+                    where=fn.where(), detail=f"{wname} ({len(segs)} segment(s)): calls {got_calls}")
         elif got != 10:
-            out.bad(fn.qname, "the per-segment integrals are not simply added", where=fn.where(), detail=f"returns {got}")
+            out.bad(fn.qname, "the per-segment integrals are not simply added", where=fn.where(), detail=f"{wname}: returns {got}")
         else:
-            out.ok(fn.qname, f"sum over all segments of IntegratePlanar.{name}{extra}", where=fn.where())
+            out.ok(fn.qname, f"{wname}: sum over all segments of IntegratePlanar.{name}{extra}", where=fn.where())
     # the per-segment area term must be the same Green form for straight and curved segments (the form the moments use:
     # the integral of x dy); two different forms differ by d(xy)/2, which does not cancel on a curve that mixes them
     fa = ctx.fn("curve.IntegratePlanar.area")
